@@ -418,8 +418,11 @@ static void m6_waitn (void *a) {
 }
 static void m6_signaller (void *a) {
 	while (!vrt_is_blocked (m6_tid[0]) || !vrt_is_blocked (m6_tid[1]) || !vrt_is_blocked (m6_tid[2])) vrt_yield ();
+	/* the predicate changes under the WRITE lock (under a read lock it could change between C's test and C's enqueue on the cv, both
+	   threads holding read locks: the scenario's own lost wake-up -- seen once in 20000 thorough-tier runs, a false alarm of the first
+	   version of this mode); the wake-up itself is then issued under a read lock */
+	nsync_mu_lock (&mu); wsection_begin (); vrt_sh_set (M6_GO, 1); wsection_end (); nsync_mu_unlock (&mu);
 	nsync_mu_rlock (&mu); vrt_acquired (&mu, 0);
-	vrt_sh_set (M6_GO, 1);
 	if (vrt_rand (2)) nsync_cv_signal (&cv); else nsync_cv_broadcast (&cv);
 	if (vrt_rand (2)) vrt_point ("after-wake-under-rlock");
 	vrt_releasing (&mu, 0); nsync_mu_runlock (&mu);
